@@ -21,6 +21,14 @@ Direct predicates on the implementation, for every generated input:
   P6 several patterns -> first matching in listed order,   P7 element-wise at every position.
 Correspondence: the model's `load_pos` over the same tree and input, the answers of the real
 strptime / fromisoformat for the leaf strings being passed as oracle tables.
+ISO-AMBIGUOUS stream (second half of every run): pattern lists containing a re-assignment of the
+digit slots of an ISO layout ('%Y-%d-%m', '%S:%M:%H', '%Y-%d-%mT%M:%H:%S', '%m%d-%y-%H', '%I:%M' ...),
+alone / with other patterns / Aware+UTC / in containers, both engines; STRICT reference:
+  (a) a string that is valid ISO loads as fromisoformat reads it, whatever the patterns make of it,
+  (b) load(dump(load(s))) == load(s),  (c) otherwise the first listed matching pattern wins.
+The stdlib slice coq/model/PatStd.v (strp_fix / iso_fix) is compared with the interpreter on the
+same strings.  Recorded finding F90 (v1 exception decided for the whole list) is replayed and its
+region classified.
 """
 import datetime as _dt, json, zoneinfo
 from lib.coqrun import coq_str, coq_list
@@ -36,13 +44,31 @@ META = {
     'theorems': ['C17_pattern', 'C17_pattern_dash_time', 'C17_pattern_v1', 'C17_first_match_v1', 'C17_tz_attached',
                  'C17_iso_precedence', 'C17_iso_precedence_v1', 'C17_iso', 'C17_iso_v1', 'C17_dump_load', 'C17_dump_load_v1',
                  'C17_reject_v1', 'C17_reject', 'C17_elementwise', 'C17_elementwise_error',
-                 'C17_positions_leaf', 'C17_positions_seq', 'C17_positions_error_origin'],
+                 'C17_positions_leaf', 'C17_positions_seq', 'C17_positions_error_origin',
+                 # the ambiguous region (a declared pattern ALSO parses a valid ISO string / several patterns parse one string)
+                 'C17_load_cases', 'C17_load_cases_v1', 'C17_iso_wins', 'C17_iso_wins_v1', 'C17_no_exception_date_datetime',
+                 'C17_ambiguous_is_iso', 'C17_ambiguous_is_iso_v1', 'C17_exception_exact', 'C17_exception_exact_v1',
+                 'C17_first_match_spec', 'C17_first_listed_wins_v1', 'C17_dump_load_any', 'C17_dump_load_any_v1',
+                 'C17_dump_load_strong', 'C17_dump_load_strong_v1', 'C17_dump_load_plain', 'C17_dump_load_plain_v1_partial',
+                 'C17_iso_plain_v1_partial', 'C17_dump_load_v1_refuted', 'C17_iso_v1_refuted',
+                 # the fixed-width slice of strptime / fromisoformat and the ISO-ambiguous family of patterns
+                 'C17_slice_literal_law', 'C17_slice_roundtrip', 'C17_ambiguous_family', 'C17_ambiguous_dates', 'C17_ambiguous_times'],
     'tables': [],
     'level_text': ('Theorems proved in Coq for ALL patterns, strings, values, classes and time zones about an executable model of the '
                    'two generated decision trees (default engine and v1): order of the ISO / strptime attempts, first matching '
                    'pattern, tz attachment, class, rejection, dump/load, element-wise containers. strptime / strftime / '
                    'fromisoformat are parameters whose laws are premises; the model is re-validated against the implementation '
-                   'on every run with the real functions\' answers, and the property is tested directly.'),
+                   'on every run with the real functions\' answers, and the property is tested directly. '
+                   'The AMBIGUOUS region is inside the model: "pattern p also matches s" (pmatches / first_match / ambig0 / ambig1); '
+                   'a valid ISO string loads as ISO whatever the declared patterns make of it, the exception (time target and a '
+                   'pattern containing - or +) is delimited exactly as the source delimits it (iff theorems), the first listed '
+                   'matching pattern wins among the patterns, and load(dump(load s)) = load s for a value loaded through any '
+                   'declared pattern. An executable fixed-width slice of strptime / fromisoformat (PatStd.v, compared with the '
+                   'interpreter on every run) makes the region concrete: for EVERY permutation of the ISO field order and ALL '
+                   'values whose permuted reading exists, the permuted pattern parses the ISO string as another value and both '
+                   'engines still load the ISO reading (C17_ambiguous_family / _dates / _times). Where /repo violates the '
+                   'property (v1: the exception is decided for the whole pattern list, finding F90) the statement is proved on the '
+                   'safe region (sibling_free) and refuted with a witness outside it.'),
     'level_note': ('Trusted: Coq kernel; the hand-written model; the oracle premises (strptime inverts strftime at the pattern\'s '
                    'precision, fromisoformat inverts isoformat) audited by sampling on every run; the harness.'),
     'rule': ('per engine: classes of 8 patterned fields (placement styles: Annotated container / shared module-level pattern object / '
@@ -50,10 +76,19 @@ META = {
              'variadic tuples, Optional, multi-member Union, NamedTuple, TypedDict total and partial, nested dataclass, shared '
              'NamedTuple/TypedDict classes, depth <= 4). Scalar field: one value formatted with each pattern, an ISO string, 2 junk '
              'strings; container field: 3 inputs whose leaves are pattern-formatted or ISO strings + 2 inputs with one junk leaf. '
+             'Ambiguous stream: classes of 8 fields whose pattern list contains a re-assignment of the digit slots of an ISO layout '
+             '(permutations of the two-digit directives, two-digit-year variants, %I for the hour; alone / listed with other patterns / '
+             'Aware and UTC variants / containers); inputs: ISO renderings of values whose alternative reading exists, strings formatted '
+             'with each listed pattern (small, mixed and full-range components), junk; strict reference: ISO reading if valid ISO, else '
+             'first listed matching pattern. '
              'Non-trivial = pattern with >= 3 directives or subclass / tz variant / container / several patterns; distinct = '
              'distinct (engine, annotation, input).'),
     'trusted_base': ['model coq/model/PatModel.v: decision trees only; stdlib parsing/formatting are oracle parameters',
-                     'oracle tables computed with the interpreter\'s own datetime.strptime / fromisoformat'],
+                     'oracle tables computed with the interpreter\'s own datetime.strptime / fromisoformat',
+                     'coq/model/PatStd.v: a fixed-width slice of strptime / fromisoformat (%Y %m %d %H %M %S + literals, zero-padded '
+                     'strings, ISO extended forms), used only as a concrete instance of the oracles; compared with the interpreter on '
+                     'its domain on every run (stdlib_slice_audit)',
+                     'literal law (premise of C17_dump_load_plain*): a pattern containing - or + only parses strings containing one'],
     'assumptions': ['date/time leaves receive str inputs (numbers / date objects take the timestamp path, outside the property)',
                     'years 1900-2100 (1969-2068 with %y); C locale for %b %B %p',
                     'default engine: no multi-member Union around a date/time leaf (str input is not matched there even unpatterned) and '
@@ -518,6 +553,8 @@ def leafctx(f, leaf):
 def gen_leaf_string(r, f, leaf, why):
     """(string, meta) for one date/time leaf"""
     kind = leaf[1]
+    if f.get('amb'):
+        return amb_leaf_string(r, f, leaf, {'fmt': 'amb_fmt', 'iso': 'amb_iso'}.get(why, why))
     if why == 'fmt':
         j = r.randrange(len(f['patterns']))
         info = set(f['infos'][j])
@@ -626,6 +663,280 @@ def gen_inputs(r, f):
     f['items'] = items
 
 
+# --------------------------------------------------------------------------- ISO-AMBIGUOUS patterns
+# Patterns that also parse an ISO-8601 rendering of some value of the target type, with another meaning.
+# Systematic construction: take an ISO LAYOUT of the target kind (the strftime pattern that writes one of the ISO forms
+# fromisoformat accepts), and re-assign its digit slots: permute the two-digit directives among the two-digit slots,
+# read the four-digit year slot with two two-digit directives (two-digit-year variants), read the hour slot with %I.
+# Whether (pattern, value) is really ambiguous is decided by the stdlib itself (strptime and fromisoformat both parse
+# the string, with different readings), never by the library.
+ISO_LAYOUTS = {
+    'date': ['%Y-%m-%d', '%Y-%m-%d', '%Y%m%d'],
+    'time': ['%H:%M:%S', '%H:%M:%S', '%H:%M', '%H%M%S', '%H%M', '%H:%M:%S.%f'],
+    'datetime': ['%Y-%m-%dT%H:%M:%S', '%Y-%m-%d %H:%M:%S', '%Y-%m-%dT%H:%M', '%Y-%m-%dT%H:%M:%S.%f', '%Y%m%dT%H%M%S',
+                 '%Y-%m-%d'],
+}
+ISO_LAYOUTS_TZ = {'time': ['%H:%M:%S%z', '%H:%M:%SZ'], 'datetime': ['%Y-%m-%dT%H:%M:%S%z', '%Y-%m-%d %H:%M:%SZ']}
+TWO_DIGIT = ['%m', '%d', '%H', '%M', '%S', '%y']
+REQUIRED = {'date': [('%Y', '%y'), ('%m',), ('%d',)], 'time': [('%H', '%I'), ('%M',)],
+            'datetime': [('%Y', '%y'), ('%m',), ('%d',), ('%H', '%I'), ('%M',)]}
+OTHER_PATTERNS = {'date': ['%d.%m.%Y', '%m/%d/%Y', '%d %b %Y', '%Y.%j'],
+                  'time': ['%Hh%M', '%I.%M %p', '%H.%M.%S', '%M min %H h'],
+                  'datetime': ['%d.%m.%Y %H.%M', '%m/%d/%Y %I:%M %p', '%d %b %Y, %H.%M.%S', '%H.%M on %d.%m.%Y']}
+DASHED_TIME = ['%H-%M', '%H-%M-%S', '%M+%H', '%H:%M - %S']
+AMB_YEARS = [2001, 2002, 2003, 2004, 2005, 2006, 2007, 2008, 2009, 2010, 2011, 2012, 1011, 1112, 1210, 2021, 1999, 2068]
+
+
+def split_layout(layout):
+    """['%Y', '-', '%m', ...]: directives and literal runs"""
+    import re
+    return [x for x in re.split(r'(%[A-Za-z])', layout) if x]
+
+
+def directives_of(p):
+    import re
+    return re.findall(r'%[A-Za-z]', p)
+
+
+def perms_of(xs):
+    import itertools
+    return [list(q) for q in itertools.permutations(xs)]
+
+
+def amb_variants(kind, layout):
+    """every re-assignment of the digit slots of `layout` that still determines the target's fields
+    (as a list of patterns, the layout itself excluded), in a fixed order"""
+    parts = split_layout(layout)
+    slots2 = [i for i, x in enumerate(parts) if x in TWO_DIGIT]
+    used2 = [parts[i] for i in slots2]
+    out = []
+
+    required = REQUIRED[kind] if ('%H' in parts or kind != 'datetime') else REQUIRED['date']   # date-only layout of a datetime
+
+    def ok(ds):
+        return len(set(ds)) == len(ds) and not ('%Y' in ds and '%y' in ds) and not ('%H' in ds and '%I' in ds) and \
+            all(any(a in ds for a in alt) for alt in required)
+    # (a) permutations of the two-digit directives among the two-digit slots (optionally %H -> %I)
+    for q in perms_of(used2):
+        for hour in ('%H', '%I'):
+            ps = list(parts)
+            for i, d in zip(slots2, q):
+                ps[i] = hour if d == '%H' else d
+            if ok(directives_of(''.join(ps))):
+                out.append(''.join(ps))
+    nperm = len(out)
+    # (b) two-digit-year variants: the YYYY slot read by two two-digit directives, %y in some two-digit slot
+    if '%Y' in parts:
+        extras = [d for d in TWO_DIGIT if d not in used2 and d != '%y']
+        pool = used2 + ['%y']
+        for extra in extras[:3]:
+            cand = pool + [extra]
+            if len(cand) != len(slots2) + 2:
+                continue
+            allp = perms_of(cand)
+            for q in allp[::max(1, len(allp) // 48)]:
+                ps = list(parts)
+                ps[parts.index('%Y')] = q[0] + q[1]
+                for i, d in zip(slots2, q[2:]):
+                    ps[i] = d
+                if ok(directives_of(''.join(ps))):
+                    out.append(''.join(ps))
+    seen, perm, split = {layout}, [], []
+    for i, p in enumerate(out):
+        if p not in seen:
+            seen.add(p)
+            (perm if i < nperm else split).append(p)
+    return perm, split
+
+
+def amb_pool_value(r, small):
+    """small: every component is a valid month, day, hour, minute and second (1..12): all re-assignments are valid"""
+    if small:
+        y = r.choice(AMB_YEARS)
+        return _dt.datetime(y, r.randint(1, 12), r.randint(1, 12), r.randint(1, 12), r.randint(1, 12), r.randint(1, 12),
+                            r.choice([0, 0, 120000, 101112]))
+    v = gen_value(r, set(), False)
+    return v.replace(day=min(v.day, 28)).replace(year=r.choice([v.year, r.choice(AMB_YEARS)]))
+
+
+def render_layout(v, layout, tz=None):
+    if '%z' in layout:
+        v = v.replace(tzinfo=tz or _dt.timezone.utc)
+        s = v.strftime(layout.replace('%z', '')) + v.isoformat()[-6:]
+        return s
+    return v.strftime(layout)
+
+
+def gen_amb_patterns(r, f, kind):
+    """pattern list of an ambiguous field: an ISO-ambiguous pattern alone, or listed with other patterns"""
+    layouts = list(ISO_LAYOUTS[kind])
+    if f['tz'] or (kind != 'date' and r.random() < 0.15):
+        layouts += ISO_LAYOUTS_TZ.get(kind, [])
+    layout = r.choice(layouts)
+    perm, split = amb_variants(kind, layout)
+    vs = perm if (perm and (not split or r.random() < 0.75)) else split
+    f['amb'] = {'layout': layout, 'kind': kind}
+    if not vs:
+        vs = [layout]
+    # systematic: walk the variants of the layout round-robin over the run (every one is reached), random start
+    idx = f.get('amb_idx', r.randrange(len(vs)))
+    amb = vs[idx % len(vs)]
+    pats = [amb]
+    if f['engine'] == 'v1':
+        mode = r.choice(['single', 'single', 'amb+other', 'other+amb', 'amb+amb', 'three'])
+        other = r.choice(OTHER_PATTERNS[kind])
+        amb2 = vs[(idx + 1 + r.randrange(len(vs))) % len(vs)]
+        if mode == 'amb+other':
+            pats = [amb, other]
+        elif mode == 'other+amb':
+            pats = [other, amb]
+        elif mode == 'amb+amb' and amb2 != amb:
+            pats = [amb, amb2]
+        elif mode == 'three' and amb2 != amb:
+            pats = [amb, other, amb2]
+            r.shuffle(pats)
+        if kind == 'time' and r.random() < 0.3:
+            # the exception region: a pattern containing '-' / '+' somewhere in the list
+            pats.insert(r.randrange(len(pats) + 1), r.choice(DASHED_TIME))
+    elif kind == 'time' and r.random() < 0.1:
+        pats = [r.choice(DASHED_TIME)]
+    f['patterns'] = pats
+    f['infos'] = [sorted(set(directives_of(p))) for p in pats]
+    f['overlap'] = False
+
+
+def amb_leaf_string(r, f, leaf, why):
+    kind, lf = leaf[1], leafctx(f, leaf)
+    a = f['amb']
+    if why == 'amb_iso':
+        # an ISO rendering (in the field's layout) of a value; prefer one that a declared pattern ALSO parses differently
+        tz = _dt.timezone(_dt.timedelta(seconds=r.choice(OFFSETS)))
+        best = None
+        for _try in range(12):
+            v = amb_pool_value(r, small=_try < 9)
+            s = render_layout(v, a['layout'], tz)
+            ir = iso_reading(lf, s)
+            if ir is None:
+                continue
+            pr = pattern_reading(lf, s)
+            if best is None:
+                best = (s, False)
+            if pr is not None and canon_py(pr, 'x') != canon_py(ir, 'x'):
+                best = (s, True)
+                break
+        if best is None:
+            best = (gen_leaf_string(r, dict(f, amb=None), leaf, 'iso')[0], False)
+        return best[0], {'why': 'amb_iso', 'ambiguous': best[1]}
+    if why == 'amb_fmt':
+        j = r.randrange(len(f['patterns']))
+        p = f['patterns'][j]
+        mode = r.choice(['small', 'small', 'any', 'mixed'])
+        v = amb_pool_value(r, small=mode != 'any')
+        if mode == 'mixed':      # one component out of the range of its ISO neighbour: not ISO, but several patterns may match
+            v = v.replace(**r.choice([{'day': r.randint(13, 28)}, {'second': r.randint(24, 59)}, {'minute': r.randint(24, 59)},
+                                      {'hour': r.randint(13, 23)}]))
+        if '%z' in p:
+            v = v.replace(tzinfo=_dt.timezone(_dt.timedelta(seconds=r.choice(OFFSETS))))
+        try:
+            s = v.strftime(p)
+        except ValueError:
+            s = v.replace(day=min(v.day, 28), year=2012).strftime(p)
+        ir, pr = iso_reading(lf, s), pattern_reading(lf, s)
+        return s, {'why': 'amb_fmt', 'j': j, 'ambiguous': bool(ir is not None and pr is not None and canon_py(pr, 'x') != canon_py(ir, 'x'))}
+    return r.choice(JUNK), {'why': 'junk'}
+
+
+def gen_amb_field(r, engine, fid, idx):
+    """a field whose pattern list contains an ISO-ambiguous pattern; same record shape as gen_field"""
+    f = {'engine': engine, 'id': fid, 'tz': None, 'amb_idx': idx}
+    if engine == 'v1' and r.random() < 0.4:
+        f['tz'] = 'UTC!' if r.random() < 0.5 else r.choice(ZONES)
+    kind = r.choice(['time', 'datetime'] if f['tz'] else ['date', 'time', 'datetime'])
+    style = r.choice(['ann', 'ann', 'sub', 'sub'] + (['leafann'] if engine == 'v1' else []))
+    f['style'] = style
+    if r.random() < 0.5:
+        f['tree'] = ['leaf', kind, SUB[kind] if (style != 'sub' and r.random() < 0.3) else None]
+    else:
+        f['tree'] = gen_tree(r, f, style, [kind], r.choice([0, 1, 2]), [0])
+    gen_amb_patterns(r, f, kind)
+    gen_feature(r, f)
+    f['ann'] = field_ann(f)
+    hdr = []
+    header_src(f, f['tree'], style, hdr)
+    f['header'] = ''.join(h + '\n' for h in hdr)
+    t = f['tree']
+    items = []
+    if t[0] == 'leaf':
+        plans = ['amb_iso', 'amb_iso'] + ['amb_fmt'] * (2 * len(f['patterns'])) + ['junk']
+        for why in plans:
+            meta = {}
+            items.append({'inp': gen_input(r, f, t, meta, '', lambda p, w=why: w), 'meta': meta})
+    else:
+        for _ in range(4):
+            meta = {}
+            items.append({'inp': gen_input(r, f, t, meta, '', lambda p: 'amb_iso' if r.random() < 0.5 else 'amb_fmt'), 'meta': meta})
+        meta, state = {}, {'n': 0, 'pick': r.randint(0, 2)}
+
+        def plan(p, state=state):
+            state['n'] += 1
+            return 'junk' if state['n'] - 1 == state['pick'] else 'amb_fmt'
+        items.append({'inp': gen_input(r, f, t, meta, '', plan), 'meta': meta})
+    for it in items:
+        clean_meta(it['meta'])
+    f['items'] = items
+    return f
+
+
+def has_dash(p):
+    return '-' in p or '+' in p
+
+
+def first_matching(lf, s):
+    """(index, value at the target kind) of the first listed pattern that parses s"""
+    for j, p in enumerate(lf['patterns']):
+        d = o_strp(s, p)
+        if d is not None:
+            return j, to_target(d, lf['kind'], tz_of(lf))
+    return None
+
+
+def strict_accept(ctx, lf, s, m, pr, ir):
+    """the property, strictly (documentation: fromisoformat first, then the patterns in listed order):
+         valid ISO for the target  -> the ISO reading, whatever the declared patterns make of the string;
+         otherwise                  -> the reading of the FIRST listed pattern that parses it.
+       Tolerated (as in the other streams): a time pattern that itself contains '-' / '+' may be tried before
+       time.fromisoformat (the purpose of the library's Python-3.11 work-around)."""
+    cn = cls_name(lf)
+    if ctx is not None:
+        ctx.hist('ambiguous_leaf', '%s/%s' % (m['why'], 'ambiguous' if (pr is not None and ir is not None and
+                                                                       canon_py(pr, cn) != canon_py(ir, cn)) else 'plain'))
+    if ir is None:
+        return [canon_py(pr, cn)]
+    acc = [canon_py(ir, cn)]
+    fm = first_matching(lf, s)
+    if fm is not None and lf['kind'] == 'time' and has_dash(lf['patterns'][fm[0]]):
+        acc.append(canon_py(pr, cn))
+    return acc
+
+
+F90 = 'F90-v1-time-dash-exception-is-list-wide'
+
+
+def in_f90_region(f, strings):
+    """v1, time leaf, some declared pattern contains '-' / '+' (the exception is active for the whole list), and a
+    string that is valid ISO is parsed first by a listed pattern WITHOUT '-' / '+', with another reading"""
+    if f['engine'] != 'v1':
+        return False
+    for leaf, s in strings:
+        lf = leafctx(f, leaf)
+        if not dash_time(lf) or not isinstance(s, str):
+            continue
+        fm, ir = first_matching(lf, s), iso_reading(lf, s)
+        if fm is not None and ir is not None and not has_dash(lf['patterns'][fm[0]]) and canon_py(fm[1], 'x') != canon_py(ir, 'x'):
+            return True
+    return False
+
+
 # --------------------------------------------------------------------------- expectations (direct predicates)
 def cls_name(lf):
     return lf['cls'] or lf['kind']
@@ -663,6 +974,8 @@ def leaf_accept(ctx, f, leaf, s, m):
     pr, ir = pattern_reading(lf, s), iso_reading(lf, s)
     if pr is None and ir is None:
         raise Reject(s)
+    if m and m.get('why') in ('amb_iso', 'amb_fmt'):
+        return strict_accept(ctx, lf, s, m, pr, ir)
     if m and m.get('why') == 'fmt':
         info = set(f['infos'][m['j']])
         v = _dt.datetime.fromisoformat(m['v'])
@@ -915,6 +1228,8 @@ Definition show_out (o : outcome) : pstr :=
   | Loaded v => show_val v
   | ParseErr ps => S "P:" ++ join (S ",") (map hex ps)
   end.
+Definition show_ost (o : option stamp) : pstr :=
+  match o with None => S "None" | Some d => join (S ",") (map show_Z [yr d; mo d; dy d; hh d; mi d; ss d; us d]) end.
 Definition missing : stamp := {| yr := -1; mo := 0; dy := 0; hh := 0; mi := 0; ss := 0; us := 0; tz := None; fold := 0 |}.
 Fixpoint lk (s : pstr) (t : list (pstr * option stamp)) : option stamp :=
   match t with [] => Some missing | (k, v) :: r => if pstr_eqb s k then v else lk s r end.
@@ -1112,6 +1427,14 @@ def gen_groups(ctx):
                 f = gen_field(r, engine, i, shared if is_sh else None)
                 fields.append(f)
             groups.append({'engine': engine, 'header': COMMON_SRC + ''.join(header) + ''.join(f['header'] for f in fields), 'fields': fields})
+    # ---- ISO-ambiguous patterns: classes of 8 fields whose pattern lists contain a re-assignment of an ISO layout ----
+    for engine in ('v0', 'v1'):
+        r = ctx.sub_rng('ambiguous', engine)
+        n = 24 if ctx.tier == 'quick' else 120
+        base = r.randrange(100000)
+        for gi in range(n):
+            fields = [gen_amb_field(r, engine, i, base + gi * 8 + i) for i in range(8)]
+            groups.append({'engine': engine, 'stream': 'ambiguous', 'header': COMMON_SRC + ''.join(f['header'] for f in fields), 'fields': fields})
     return groups
 
 
@@ -1122,7 +1445,7 @@ def payload(groups):
                        for g in groups]}
 
 
-FKEYS = ('engine', 'id', 'tz', 'patterns', 'infos', 'overlap', 'style', 'tree', 'ann', 'pvar', 'feat', 'rhs', 'path')
+FKEYS = ('engine', 'id', 'tz', 'patterns', 'infos', 'overlap', 'style', 'tree', 'ann', 'pvar', 'feat', 'rhs', 'path', 'amb')
 
 
 def replay_obj(g, fi, it, what):
@@ -1286,11 +1609,79 @@ def norm_obs(t, inp, c):
         return c
 
 
+def f90_replay(ctx, w):
+    """replay the witness of finding F90 on the implementation; True iff it still fails"""
+    g = {'engine': w['engine'], 'header': '', 'fields': [{'ann': w['ann'], 'rhs': 'None', 'path': None, 'inputs': w['inputs']}]}
+    res = ctx.impl('c17', {'groups': [g]})['groups'][0][0]
+    fails = False
+    for x, want in zip(res, w['iso_readings']):
+        ok = 'ok' in x.get('load', {}) and x['load']['ok'] is not None and x['load']['ok']['f'] == want and x.get('again_equal')
+        fails = fails or not ok
+    return fails, res
+
+
+SLICE_DIRECTIVES = {'%Y': 4, '%m': 2, '%d': 2, '%H': 2, '%M': 2, '%S': 2}
+SLICE_ISO_SHAPE = {'date': r'\d{4}-\d\d-\d\d', 'time': r'\d\d(:\d\d(:\d\d)?)?',
+                   'datetime': r'\d{4}-\d\d-\d\d([T ]\d\d(:\d\d(:\d\d)?)?)?'}
+
+
+def slice_width(p):
+    """total width of a pattern of the Coq slice PatStd (None when the pattern is outside the slice)"""
+    ds = directives_of(p)
+    if '%%' in p or any(d not in SLICE_DIRECTIVES for d in ds) or len(set(ds)) != len(ds) or not p.isascii():
+        return None
+    return sum(SLICE_DIRECTIVES[d] for d in ds) + len(p) - 2 * len(ds)
+
+
+def stamp_txt(v):
+    if v is None:
+        return 'None'
+    if isinstance(v, _dt.datetime):
+        fs = (v.year, v.month, v.day, v.hour, v.minute, v.second, v.microsecond)
+    elif isinstance(v, _dt.date):
+        fs = (v.year, v.month, v.day, 0, 0, 0, 0)
+    else:
+        fs = (0, 0, 0, v.hour, v.minute, v.second, v.microsecond)
+    return ','.join(str(x) for x in fs)
+
+
+def slice_audit_cases(f, strings, seen):
+    """(expression, expected text, what) for the stdlib slice of PatStd.v on the leaf strings of an ambiguous field:
+    strp_fix against datetime.strptime where |s| = width(p), iso_fix against fromisoformat on the extended ISO shapes"""
+    import re
+    out = []
+    for leaf, x in strings:
+        if not isinstance(x, str) or not x.isascii():
+            continue
+        for p_ in f['patterns']:
+            w = slice_width(p_)
+            if w is not None and w == len(x) and ('p', p_, x) not in seen:
+                seen.add(('p', p_, x))
+                out.append(('show_ost (strp_fix %s %s)' % (coq_str(p_), coq_str(x)), stamp_txt(o_strp(x, p_)), 'strptime(%r, %r)' % (x, p_)))
+        kind = leaf[1]
+        if re.fullmatch(SLICE_ISO_SHAPE[kind], x) and ('i', kind, x) not in seen:
+            seen.add(('i', kind, x))
+            out.append(('show_ost (iso_fix %s %s)' % (KCOQ[kind], coq_str(x)), stamp_txt(o_iso(kind, x, 'v1')), '%s.fromisoformat(%r)' % (kind, x)))
+    return out
+
+
 def run(ctx):
     groups = gen_groups(ctx)
     impl = ctx.impl('c17', payload(groups))['groups']
     exprs, index = [], []
     nviol = 0
+    # ---- recorded finding F90: replay the witness ----
+    f90_active = False
+    fnd = ctx.finding(F90)
+    if fnd is not None:
+        try:
+            f90_active, _obs = f90_replay(ctx, fnd['witness'])
+        except Exception as e:       # noqa
+            ctx.broken_tie('witness of %s could not be replayed: %s' % (F90, str(e)[:300]))
+        ctx.count(1, key='witness:' + F90, nontrivial=True)
+        ctx.known_finding(F90, still_fails=f90_active)
+        f90_active = f90_active and ctx.is_open_region(F90)
+    audit, audit_seen, viol_fields = [], set(), set()
     for g, gres in zip(groups, impl):
         region61 = f61_fields(g)
         for fi, (f, fres) in enumerate(zip(g['fields'], gres)):
@@ -1318,10 +1709,27 @@ def run(ctx):
                     ctx.hist('leaf_input', m['why'])
                 known61 = False
                 bad = check_input(ctx, f, it, res)
+                strings = []
+                input_leaves(f['tree'], it['inp'], strings)
+                if f.get('amb'):
+                    ctx.hist('ambiguous_stream', '%s/%s/%d patterns%s' % (f['engine'], f['amb']['kind'], len(f['patterns']), '/tz' if f['tz'] else ''))
+                    audit.extend(slice_audit_cases(f, strings, audit_seen))
+                if res.get('dump') is not None:
+                    try:
+                        input_leaves(f['tree'], res['dump'], strings)
+                    except Exception:       # noqa - a dump of another shape is reported by P2
+                        pass
+                in90 = in_f90_region(f, strings)
+                if in90:
+                    ctx.hist('f90_shape_covered', 'fails' if bad else 'ok')
+                if bad and in90 and f90_active:
+                    ctx.hist('known_region', F90)
+                    bad = None
                 if fi in region61:
                     ctx.hist('f61_shape_covered', 'fails' if bad else 'ok')
-                if bad and nviol < 8:
+                if bad and nviol < 8 and (id(g), fi) not in viol_fields:      # one concrete input per field is enough
                     nviol += 1
+                    viol_fields.add((id(g), fi))
                     ctx.violation('%s engine, field %s: %s' % (f['engine'], f['ann'], bad), replay_obj(g, fi, it, bad))
                 # ---- model expressions: the input, and the dump of its load ----
                 exprs.append(model_expr(f, it['inp']))
@@ -1337,12 +1745,24 @@ def run(ctx):
                     except Exception:
                         ctx.hist('reload_not_modelled', f['style'])
     # ---- correspondence ----
+    nload = len(exprs)
     try:
-        model = coq_retry(ctx, exprs, ['PatModel'], prelude=PRELUDE)
+        model = coq_retry(ctx, exprs + [a[0] for a in audit], ['PatModel', 'PatStd'], prelude=PRELUDE)
     except Exception as e:
         ctx.broken_tie('model evaluation failed: %s' % str(e)[:800])
         model = None
     if model is not None:
+        # the stdlib slice (PatStd.v: strp_fix / iso_fix) against the interpreter's own functions
+        na = 0
+        for (expr, want, what), m in zip(audit, model[nload:]):
+            ctx.traces_validated += 1
+            ctx.hist('stdlib_slice_audit', 'agree' if m == want else 'DISAGREE')
+            if m != want:
+                na += 1
+                ctx.disagreements_checked += 1
+                if na <= 3:
+                    ctx.broken_tie('stdlib slice PatStd.v disagrees with the interpreter on %s' % what, {'model': m, 'stdlib': want})
+        model = model[:nload]
         nd = 0
         for (f, inp, o, phase, known), m in zip(index, model):
             ctx.traces_validated += 1
@@ -1381,6 +1801,12 @@ def replay_demo(ctx, obj):
 def replay(ctx, obj, quiet=False):
     if 'finding' in obj:
         return replay_demo(ctx, obj)
+    if obj.get('kind') == 'f90':
+        fails, res = f90_replay(ctx, obj)
+        if not quiet:
+            print('v1  f0: %s   inputs %s\nobserved: %s\n(expected: each input loads as time.fromisoformat reads it and survives its dump)'
+                  % (obj['ann'], json.dumps(obj['inputs']), json.dumps(res)[:1500]))
+        return not fails
     if obj.get('kind') != 'group':
         print('replay object names a broken tie, not an input: %s' % json.dumps(obj)[:1500])
         return False
